@@ -62,6 +62,94 @@ def describe_action(P, module, cls, node):
     raise AnalysisError('lexer action not understood: %s' % norm(node))
 
 
+class _Subst(ast.NodeTransformer):
+    def __init__(self, env):
+        self.env = env
+
+    def visit_Name(self, node):
+        if isinstance(node.ctx, ast.Load) and node.id in self.env:
+            return self.env[node.id]
+        return node
+
+    def visit_Starred(self, node):
+        v = self.visit(node.value)
+        return ast.Starred(value=v, ctx=node.ctx)
+
+
+def expand_rule_helper(P, module, cls, call):
+    """A rule written as a call of a module-level helper of the package (``_header_rule(r'...', using(JsonLexer))``) is
+    expanded by substitution: the helper's straight-line body (assignments, ``+=``, ``if <varargs>:``, one ``return`` of
+    a tuple) is evaluated on the argument *expressions*, giving the tuple expression the helper returns, which is then
+    read like a rule written in place.  Anything else in the helper is an analysis error."""
+    fi = P.resolve_name(module, call.func.id) if isinstance(call.func, ast.Name) else None
+    if not isinstance(fi, FunctionInfo):
+        return None
+    a = fi.node.args
+    if a.kwonlyargs or a.kwarg or call.keywords and any(k.arg is None for k in call.keywords):
+        raise AnalysisError('lexer rule helper %s: signature not understood' % fi.name)
+    names = [x.arg for x in a.args]
+    env = {}
+    pos = list(call.args)
+    if any(isinstance(x, ast.Starred) for x in pos):
+        raise AnalysisError('lexer rule helper %s called with *args' % fi.name)
+    for n_, v_ in zip(names, pos):
+        env[n_] = v_
+    rest = pos[len(names):]
+    for kw in call.keywords:
+        env[kw.arg] = kw.value
+    defaults = a.defaults
+    for n_, d_ in zip(names[len(names) - len(defaults):], defaults):
+        env.setdefault(n_, d_)
+    if a.vararg:
+        env[a.vararg.arg] = ast.Tuple(elts=rest, ctx=ast.Load())
+    elif rest:
+        raise AnalysisError('lexer rule helper %s: too many arguments' % fi.name)
+    if any(n_ not in env for n_ in names):
+        raise AnalysisError('lexer rule helper %s: missing argument' % fi.name)
+
+    import copy
+
+    def ev(e):
+        return _Subst(env).visit(copy.deepcopy(e))
+
+    def run(stmts):
+        for st in stmts:
+            if isinstance(st, ast.Expr) and isinstance(st.value, ast.Constant):
+                continue
+            if isinstance(st, ast.Assign) and len(st.targets) == 1 and isinstance(st.targets[0], ast.Name):
+                env[st.targets[0].id] = ev(st.value)
+            elif isinstance(st, ast.AugAssign) and isinstance(st.target, ast.Name) and isinstance(st.op, ast.Add) and st.target.id in env:
+                env[st.target.id] = ast.BinOp(left=env[st.target.id], op=ast.Add(), right=ev(st.value))
+            elif isinstance(st, ast.If):
+                t = ev(st.test)
+                neg = False
+                if isinstance(t, ast.UnaryOp) and isinstance(t.op, ast.Not):
+                    neg, t = True, t.operand
+                if isinstance(t, (ast.Tuple, ast.List)):
+                    truth = bool(t.elts)
+                elif isinstance(t, ast.Constant):
+                    truth = bool(t.value)
+                else:
+                    raise AnalysisError('lexer rule helper %s: condition %s not decidable from the call' % (fi.name, norm(st.test)))
+                r = run(st.body if truth != neg else st.orelse)
+                if r is not None:
+                    return r
+            elif isinstance(st, ast.Return) and st.value is not None:
+                return ev(st.value)
+            else:
+                raise AnalysisError('lexer rule helper %s: statement %s not understood' % (fi.name, norm(st)[:50]))
+        return None
+    out = run(fi.node.body)
+    if out is None:
+        raise AnalysisError('lexer rule helper %s returns nothing' % fi.name)
+    ast.fix_missing_locations(out)
+    for x in ast.walk(out):
+        if not hasattr(x, 'lineno'):
+            x.lineno = call.lineno
+    out.lineno = call.lineno
+    return out, fi
+
+
 def extract_tokens(P, cls):
     owner, expr = cls.find_attr('tokens')
     if owner is None or not isinstance(expr, ast.Dict):
@@ -79,6 +167,10 @@ def extract_tokens(P, cls):
                 if nm.endswith('include'):
                     rules.append({'kind': 'include', 'target': P.fold(e.args[0], owner.module, owner), 'node': e})
                     continue
+            if isinstance(e, ast.Call) and isinstance(e.func, ast.Name):
+                exp = expand_rule_helper(P, owner.module, owner, e)
+                if exp is not None:
+                    e = exp[0]
             if isinstance(e, ast.Tuple) and len(e.elts) in (2, 3):
                 try:
                     pat = P.fold(e.elts[0], owner.module, owner)
